@@ -700,7 +700,7 @@ def run(chk, p, t):
         "decided: the delivered delta-v."
     )
     chk.assumptions += ["scipy.integrate.solve_ivp stops only on sign changes of a terminal event function or at the end of t_span"]
-    for fn in (rule_r1, rule_r2, rule_r3, rule_r4, rule_r5, rule_r7):
+    for fn in (rule_r1, rule_r2, rule_r3, rule_r4, rule_r5, rule_r7, rule_r8):
         rid = "C15.R" + fn.__name__[-1]
         if not chk.wants(rid):
             continue
@@ -709,6 +709,15 @@ def run(chk, p, t):
         except (Undecided, AnchorError) as e:
             rr = chk.rule(rid + ".x", fn.__name__, 0, "-")
             (rr.undecided if isinstance(e, Undecided) else rr.error)(fn.__name__, str(e))
+
+
+def rule_r8(chk, p, t):
+    # a burn reaches its target only if the step's window query result is delivered, to the addressed agent, for every
+    # event of the query and whatever its start (a burn that starts at or before the scenario start is returned by the
+    # first window): shared instance of C01.R3
+    from rules import C01
+
+    C01.rule_r3(chk, p, t, rid="C15.R8")
 
 
 # ---------------------------------------------------------------------------------- path-wise reading of _applyEvents
